@@ -1,4 +1,5 @@
 use super::{codegen::codegen, Address, Link, Opcode, Symbol, Val};
+use crate::error;
 use crate::lang::{Error, Line, LineNumber};
 use std::sync::Arc;
 
@@ -107,6 +108,15 @@ impl Program {
             Arc::make_mut(&mut self.errors).append(&mut link_errors);
         }
         if self.direct_address == 0 {
+            if self.link.is_full() {
+                // A program this large can't run and would leave no room for direct
+                // statements, not even NEW, DELETE or SAVE.
+                if self.errors.is_empty() {
+                    self.error(error!(OutOfMemory; "PROGRAM SIZE LIMIT EXCEEDED"));
+                }
+                self.link.discard();
+                let _ = self.link.push(Opcode::End);
+            }
             self.indirect_errors = std::mem::take(&mut self.errors);
             self.direct_address = self.link.len();
             self.link.set_start_of_direct(self.link.len());
